@@ -102,6 +102,28 @@ CHECKS = {
          "merged into an ancestor, rare intermediate groups merged further up, unknown handling, transform = group leader.",
     ref="DESIGN.md section 8 C18", technique="Lean 4 proof (invariant by induction over hierarchy levels) + model/code correspondence",
     note=BASE_NOTE + " The flattening of levels into known_values (__init__) is read from the object, not modelled; numeric columns (StringDiscretizer twins) are judged but not compared with the model."),
+ "C10": dict(
+    text="Lean theorems about the per-feature loops modelled as folds over a shared dictionary: a feature that is not processed keeps its entry (featureLoop_other), what is left for a "
+         "processed feature depends only on its own entry (featureLoop_pointwise), hence any order of the feature list (any hash seed) and any superset of features give the same entry "
+         "(featureLoop_perm, featureLoop_subset); results of a worker pool keyed by name can arrive in any completion order (updateAll_perm). On the code: paired fits of carvers and "
+         "Discretizer: each feature alone / in a subset / all, shuffled feature lists and column orders, fresh interpreters with other PYTHONHASHSEED values, n_jobs=2,3 with the first "
+         "quantitative feature forced to finish last (harness-side wrapper of fit_feature), canonical values_orders and outputs compared.",
+    ref="DESIGN.md section 8 C10", technique="Lean 4 proof (frame / permutation lemmas for the loops) + paired runs across subsets, hash seeds and n_jobs",
+    note=BASE_NOTE + " Worker scheduling, pickling and process start are runtime facts: observed by the paired runs, a data race inside a worker is outside the model (partial)."),
+ "C11": dict(
+    text="Lean theorem findQuantiles_equivariant: for every strictly increasing re-encoding f of the values (in particular x -> a*x+b, a>0) the boundaries of find_quantiles are the images "
+         "of the boundaries, for every histogram, q and whatever the float kernels return (they only see counts); row permutations and index relabellings are invisible to the model by "
+         "construction (it consumes counts). On the code: metamorphic pairs (row permutation with index, three index relabellings, exact affine maps, order-preserving renamings; a family with "
+         "exact target-rate ties forcing cuts between tied categories) on the three carvers; kept features and partitions of row positions compared.",
+    ref="DESIGN.md section 8 C11", technique="Lean 4 proof (equivariance of the quantile search) + metamorphic pairs on the real carvers",
+    note=BASE_NOTE + " Exactness of a*x+b is ensured by the generator (dyadic values, power-of-two factors)."),
+ "C12": dict(
+    text="Lean theorems about the orchestration facts MulticlassCarver relies on: carved classes are classes of the target (all but the smallest in string order), an indicator marks exactly the "
+         "rows of its class, created names f_c identify (feature, class) uniquely when class labels contain no underscore (appendClass_injective_partial) and collide otherwise "
+         "(names_collision). The column-by-column equality with independent BinaryCarvers is decided on the code: real MulticlassCarver vs real BinaryCarvers on each indicator, with class "
+         "labels whose string order differs from the numeric one, dev samples and non-default min_freq_mod.",
+    ref="DESIGN.md section 8 C12", technique="Lean 4 proof (naming / class-selection lemmas) + paired runs MulticlassCarver vs one-vs-rest BinaryCarvers",
+    note=BASE_NOTE + " Feature/class names making f'{f}_{c}' collide are not generated."),
 }
 NOT_YET = "check not built yet (construction in progress, see DESIGN.md section 13); will be claimed once its model, theorems and correspondence exist"
 
